@@ -93,6 +93,10 @@ def build(chk, tier, share=1.0):
     cases, meta = [], {}
     for n, rec in enumerate(recs):
         doc = rec["doc"]
+        if any(it["t"] == "kw" and it["k"] in ("MACRO", "PASTE") for it in doc):
+            # a PASTE inside the body of a macro that is never pasted is never expanded, and C07's inlined document has
+            # no MACRO definitions at all: documents with macros of their own are not used
+            continue
         pr = pick_range(doc, rnd)
         if not pr:
             continue
